@@ -54,7 +54,7 @@ CHUNK = 40
 BOUNDS = {
     'quick': {'format_bonding': 'all lists of <= 2 descriptors over 4 kinds x labels "",A x orders 0-3, all lists of 3 '
                                 'over 10 descriptors',
-              'fragment_skeletons': '30 atomistic + 16 coarse (G3 RT_ATOMISTIC / RT_COARSE: chains, branches, rings, '
+              'fragment_skeletons': '35 atomistic + 16 coarse (G3 RT_ATOMISTIC / RT_COARSE: chains, branches, rings, '
                                     'ring-bond symbols, %nn, charged / bracket / two-letter / aromatic atoms)',
               'fragments_per_set': 3,
               'insertions': 'singles: every slot x 60 descriptors (4 kinds x labels "",A,1a x symbols none . - = #); '
@@ -66,7 +66,7 @@ BOUNDS = {
                                   'x 4 descriptor kind schemes x orders 1-3; 3-level and coarse-last-level variants',
               'random_fragment_sets': 1500},
     'thorough': {'format_bonding': 'all lists of <= 3 descriptors over 32, all lists of 4 over 10',
-                 'fragment_skeletons': '30 atomistic + 16 coarse', 'fragments_per_set': 3,
+                 'fragment_skeletons': '35 atomistic + 16 coarse', 'fragments_per_set': 3,
                  'insertions': 'singles x 60; two on one slot 20 x 20 ... ; three on one slot 10^3 (leading / first / last '
                                'atom); four on one slot 5^4 (first atom); two on different slots: every slot pair x 10 x 10; '
                                'three on different slots: 5^3 on 12 skeletons',
